@@ -205,6 +205,7 @@ _PRE: dict[str, tuple] = {}
 def check_set(text: str, path: tuple, side: str, s: str, via: str, res: core.CaseResult) -> None:
     """One assignment on a fresh parse."""
     mincase = {'text': text, 'path': list(path), 'side': side, 's': s, 'via': via}
+    nviol0 = len(res.violations)
     root = docs.try_parse(text)
     if root is None:
         res.outcomes['rejected'] += 1
@@ -328,6 +329,14 @@ def check_set(text: str, path: tuple, side: str, s: str, via: str, res: core.Cas
             res.fail(f'C17/setter-changes-tree[{tag}]', f'{what}: tree signature changed', mincase)
     else:
         res.counters['tree-invalid-before-set'] += 1
+    # after the assignment the whole getter sweep must still hold on the edited document: the new run may now sit on
+    # the other side of a zero-width token than the parser would have put it (only for two representative strings)
+    if s in (' ', '') and len(res.violations) == nviol0:
+        n0 = len(res.violations)
+        check_getters(f'{text!r} after {what}', root, res)
+        for i in range(n0, len(res.violations)):
+            key, msg, _ = res.violations[i]
+            res.violations[i] = (key.replace('C17/', 'C17/after-set:', 1), msg, mincase)
 
 
 # ---------------------------------------------------------------------------------------------------------------
